@@ -7,6 +7,8 @@ int build_chain_mixed(rng_t *r,chaindesc_t *d,unsigned modelmask,int maxpk,int m
     if(i<31 && (modelmask&(1u<<i))){
       sp_setup *S=NULL; for(int t=0;t<80;t++){ S=sp_gen_setup(r,(int)rng_below(r,SP_NPROFILES),1); if(S->channels<=maxch && ((long)S->channels<<S->bs1exp)<=(1L<<15)) break; sp_free_setup(S); S=NULL; }
       if(!S) return -9999;
+      /* the rate field is free: some model links are very slow (long durations in front of later links: time arithmetic must stay in double) or very fast */
+      if(rng_chance(r,0.3)){ static const uint32_t xr[]={1,2,25,1000,192000,768000}; S->rate=xr[rng_below(r,6)]; }
       pktlist_t pk; pktlist_init(&pk); int np=(int)rng_range(r,2,maxpk); sp_gen_stream(r,S,np,&pk,(int)rng_below(r,2));
       vh_mux_link(&pk,d,i,out); pktlist_free(&pk);
       if(desc && dl+60<dn) dl+=snprintf(desc+dl,dn-dl," {link %d model ch%d bs%d/%d %dpk}",i,S->channels,1<<S->bs0exp,1<<S->bs1exp,np);
